@@ -137,18 +137,83 @@ def chk_peek_then_next(F, E, body, s):
     return False
 
 
+def frame_poppers(F):
+    """Program methods that take a frame off Program.stack and never put one on."""
+    from props import C16
+    out = set()
+    for pb in F.bodies.values():
+        if pb.crate == "abasic_core" and pb.self_adt == C16.PROGRAM:
+            pops = [c for c in pb.calls() if c.callee.split("::")[-1] in ("pop", "truncate", "clear", "drain", "remove", "split_off")
+                    and not c.is_local and C16.receiver_field(pb, c) == (C16.PROGRAM, "stack")]
+            pushes = [c for c in pb.calls() if c.callee.endswith("Vec::push") and C16.receiver_field(pb, c) == (C16.PROGRAM, "stack")]
+            if pops and not pushes:
+                out.add(pb.path)
+    return out
+
+
+def _fn_call_frames_balanced(F, E):
+    """In evaluate_user_defined_function_call every path takes at most one frame off, and only after a successful push, and all frame-popping methods reachable from expression evaluation are called only there: so a nested
+    evaluation returns with the stack exactly as it found it, and the frame popped is the one this call pushed."""
+    import panics
+    from lib import on_ok_arm
+    ud = F.one("ExpressionEvaluator::evaluate_user_defined_function_call")
+    root = F.one("ExpressionEvaluator::evaluate_expression")
+    if ud is None or root is None:
+        return False
+    G = panics.CallGraph(F)
+    seen = G.reachable([root.path])
+    poppers = {p for p in frame_poppers(F) if p in seen}
+    if not any(sfx(p, "Program::pop_function_call_off_stack_and_return_from_it") for p in poppers):
+        return False
+    for p in poppers:
+        for cb, c in callers_of(F, p):
+            if cb.path in seen and cb.path != ud.path:
+                return False
+    counts = fn_call_frame_counts(F, ud, poppers)
+    if counts is None:
+        return False
+    for (pushed, n, early) in counts:
+        if early or n > 1:
+            return False    # more frames taken off than this call put on (fewer is a leak -- C07's pairing rule -- not a trap)
+    return True
+
+
+def fn_call_frame_counts(F, ud, poppers):
+    """Per entry->return path of evaluate_user_defined_function_call: (frame pushed successfully?, frames taken off after it,
+    was one taken off before / without the push?)"""
+    from lib import on_ok_arm
+    pushes = ud.calls_to("Program::push_function_call_onto_stack_and_goto_it")
+    if len(pushes) != 1:
+        return None
+    try:
+        paths = ud.paths(limit=50000)
+    except OverflowError:
+        return None
+    out = []
+    for path in paths:
+        if ud.term(path[-1])["k"] != "return":
+            continue
+        n = 0
+        pushed = False
+        early = False
+        for idx, b in enumerate(path):
+            c = ud.call_at(b)
+            if c is None:
+                continue
+            if c.callee == pushes[0].callee:
+                pushed = any(on_ok_arm(ud, c, x) for x in path[idx + 1:idx + 8])
+            elif c.callee in poppers:
+                if not pushed:
+                    early = True
+                n += 1
+        out.append((pushed, n, early))
+    return out
+
+
 def chk_fn_pop(F, E, body, s):
-    """stack.pop().expect(..): only evaluate_user_defined_function_call calls us, after a successful push,
-    and expression evaluation cannot reach anything that empties the stack."""
-    cs = callers_of(F, "Program::pop_function_call_off_stack_and_return_from_it")
-    if not cs:
-        return True
-    for cb, c in cs:
-        if not sfx(cb.path, "ExpressionEvaluator::evaluate_user_defined_function_call"):
-            return False
-        if not on_continue_arm_of(cb, "Program::push_function_call_onto_stack_and_goto_it", c.bb):
-            return False
-    return _expr_eval_cannot_unwind(F, E)
+    """stack.pop().expect(..): the frame-popping methods are called only from evaluate_user_defined_function_call, exactly
+    once after a successful push on every path, and expression evaluation cannot reach anything else that empties the stack."""
+    return _fn_call_frames_balanced(F, E) and _expr_eval_cannot_unwind(F, E)
 
 
 def _expr_eval_cannot_unwind(F, E):
@@ -165,6 +230,7 @@ def _expr_eval_cannot_unwind(F, E):
         if any(sfx(p, f) for f in forbidden):
             return False
     # direct clears / pops of Program.stack or Program.functions inside expression evaluation
+    allowed = frame_poppers(F) | {p for p in F.bodies if sfx(p, "Program::push_function_call_onto_stack_and_goto_it")}
     for p in seen:
         fi = E.info.get(p)
         if fi is None:
@@ -173,8 +239,7 @@ def _expr_eval_cannot_unwind(F, E):
             if via in E.info:
                 continue
             if path and path[-1] in (("abasic_core::program::Program", "stack"), ("abasic_core::program::Program", "functions")):
-                if not (sfx(p, "Program::push_function_call_onto_stack_and_goto_it") or
-                        sfx(p, "Program::pop_function_call_off_stack_and_return_from_it")):
+                if p not in allowed or path[-1][1] == "functions":
                     return False
     return True
 
